@@ -980,6 +980,7 @@ var orderTargets = []orderTarget{
 	{"internal/transfer", "RecvManifestMultiStream", "Checksum", "writeAtWithTimeout", "recv_crc_before_write"},
 	{"internal/transfer", "RecvManifestMultiStream", "validateRelPath", "OpenFile", "recv_validate_before_open"},
 	{"internal/transfer", "RecvManifestMultiStream", "validateRelPath", "MkdirAll#parent", "recv_validate_before_mkdir"},
+	{"internal/transfer", "RecvManifestMultiStream", "ValidateManifest", "MkdirAll", "recv_manifest_validated_before_mkdir"},
 	{"internal/transfer", "Flush", "WriteFile", "Rename", "flush_tmp_before_rename"},
 	{"internal/transfer", "receiveFileChunksWindowed", "writeAtWithTimeout", "MarkComplete", "legacy_write_before_mark"},
 	{"internal/app", "runICEQUICTransfer", "authenticateTransport", "SendManifestMultiStream", "sender_auth_before_send"},
